@@ -150,6 +150,21 @@ SetOk(res, net, Rel(_)) == /\ MustSet(net, Rel) \subseteq Range(res)
                            /\ Range(res) \subseteq MaySet(net, Rel)
                            /\ Cardinality(Range(res)) = Len(res)
 NetFn(net) == [i \in Ids(net) |-> net[CHOOSE k \in DOMAIN net : net[k].id = i].v]
+(* DEFERRED index rebuilds: add_lanelet(l, rtree=False) / remove_lanelet(id, rtree=False) change the network at once, the   *)
+(* index MAY stay as it was until the next operation that rebuilds it.  Band (B3): between a deferred step and the next   *)
+(* rebuilding step a lookup is "EITHER" for the lanelets touched by deferred steps - and ONLY for those.                 *)
+ExtraId == 15                                          \* the lanelet added by the add_extra routes
+IsDeferred(rt) == rt.r = "remove_nortree" \/ (rt.r = "add_extra" /\ rt.a[1] = 0)
+RECURSIVE PendingUpTo(_, _)
+PendingUpTo(routes, n) == IF n = 0 THEN {} ELSE
+                          LET rt == routes[n] IN
+                          IF rt.r = "remove_nortree" THEN PendingUpTo(routes, n - 1) \cup {rt.a[1]}
+                          ELSE IF IsDeferred(rt) THEN PendingUpTo(routes, n - 1) \cup {ExtraId}
+                          ELSE {}                      \* every other route step rebuilds (or freshly builds) the index
+Pending(routes) == PendingUpTo(routes, Len(routes))
+SetOkP(res, net, Rel(_), pend) == /\ (MustSet(net, Rel) \ pend) \subseteq Range(res)
+                                  /\ Range(res) \subseteq (MaySet(net, Rel) \cup pend)
+                                  /\ Cardinality(Range(res)) = Len(res)
 UniqueIds(net) == Cardinality(Ids(net)) = Len(net)
 
 (* obstacles: [id |-> obstacle id, occ |-> <<shape>> (occupied region at the queried time step) or <<>> (absent)] *)
@@ -207,6 +222,7 @@ Family(f) ==
       [] f = "cross4"   -> <<Box(11, 1, 1, 2, 2), Box(12, 2, 1, 3, 2), Box(13, 1, 2, 2, 3), Box(14, 2, 2, 3, 3)>>
       [] f = "corner"   -> <<Box(11, 0, 0, 1, 1), Box(12, 1, 1, 2, 2)>>                                 \* touch in one point
       [] f = "mixed4"   -> <<Box(11, 0, 0, 4, 2), Box(12, 2, 0, 6, 2), Box(13, 3, 0, 4, 1), Box(14, 0, 2, 4, 3)>>
+Extra == Box(ExtraId, 4, 3, 6, 4)                      \* the lanelet of the add_extra routes: [4,6] x [3,4]
 FamNet(f) == LET F == Family(f) IN [k \in DOMAIN F |-> [id |-> F[k].id, v |-> RingOf(F[k])]]
 
 (* ------------------------------ laws of the core (checked by TLC in MC_SpatialIndex) ------------------ *)
